@@ -556,8 +556,45 @@ static void p4_run(uint64_t idx, vh_rng_t * rng) {
 static uint64_t p5_count(int thorough) { (void) thorough; return (uint64_t) (vh_args.nshards > 0 ? vh_args.nshards : 1); }
 static void p5_run(uint64_t idx, vh_rng_t * rng) { (void) idx; (void) rng; flush_counters(); }
 
+/* ---- long parameter lists: a unit with N comma-separated items is well formed for every N (sweep of N past the ranges of
+ * small integer types); checked directly against what the unit was built from ------------------------------------ */
+static uint64_t p6_count(int thorough) { return thorough ? 1200 : 420; }
+static void p6_run(uint64_t idx, vh_rng_t * rng) {
+    static const char * const items[] = { "1", "-2.5", "#HFF", "MIN", "\"s,\"\"x\"", "'q'", "(1,2)", "#13a,b", "3 V", "4e-2" };
+    int N = 1 + (int) idx, i, np = -7; vh_buf_t b = { 0, 0, 0 }; size_t datoff, hdrlen = 6; scpi_parser_state_t st; int ret; char * buf;
+    int style = (int) vh_below(rng, 3); const char * term = vh_chance(rng, 1, 2) ? "\n" : (vh_chance(rng, 1, 2) ? ";" : "");
+    vh_buf_adds(&b, "DATA:X "); datoff = b.len;
+    for (i = 0; i < N; i++) { if (i) vh_buf_adds(&b, style == 2 && (i & 7) == 0 ? " , " : ","); vh_buf_adds(&b, style == 0 ? "1" : items[vh_below(rng, 10)]); }
+    { size_t datalen = b.len - datoff; size_t tl = strlen(term);
+      vh_buf_adds(&b, term);
+      vh_case_desc("unit with %d parameters (%zu bytes)", N, b.len);
+      buf = (char *) malloc(b.len ? b.len : 1); memcpy(buf, b.p, b.len); /* exact size */
+      memset(&st, 0x5A, sizeof st);
+      ret = scpiParser_detectProgramMessageUnit(&st, buf, (int) b.len);
+      vh_eval(1);
+      if (st.numberOfParameters != N) vh_violation("C13:unit-parameter-count-long-list", "unit with %d well-formed parameters: numberOfParameters = %d", N, st.numberOfParameters);
+      else if (st.programHeader.type != SCPI_TOKEN_COMPOUND_PROGRAM_HEADER || (size_t) st.programHeader.len != hdrlen || st.programHeader.ptr != buf) vh_violation("C13:unit-header-long-list", "unit with %d parameters: header type %d len %d", N, (int) st.programHeader.type, st.programHeader.len);
+      else if (st.programData.ptr != buf + datoff || (size_t) st.programData.len != datalen || st.programData.type != SCPI_TOKEN_ALL_PROGRAM_DATA) vh_violation("C13:unit-data-extent-long-list", "unit with %d parameters: program data offset %ld len %d type %d, expected offset %zu len %zu", N, (long) (st.programData.ptr - buf), st.programData.len, (int) st.programData.type, datoff, datalen);
+      else if ((size_t) ret != b.len) vh_violation("C13:unit-length-long-list", "unit with %d parameters: consumed %d of %zu bytes", N, ret, b.len);
+      else if ((int) st.termination != (tl == 0 ? SCPI_MESSAGE_TERMINATION_NONE : term[0] == ';' ? SCPI_MESSAGE_TERMINATION_SEMICOLON : SCPI_MESSAGE_TERMINATION_NL)) vh_violation("C13:unit-termination-long-list", "unit with %d parameters: termination %d", N, (int) st.termination);
+      else {
+          /* the list recogniser on its own */
+          lex_state_t ls; scpi_token_t tk; ls.buffer = ls.pos = buf + datoff; ls.len = (int) datalen; memset(&tk, 0x5A, sizeof tk);
+          scpiParser_parseAllProgramData(&ls, &tk, &np);
+          if (np != N || (size_t) tk.len != datalen) vh_violation("C13:alldata-count-long-list", "list of %d items: count %d len %d", N, np, tk.len);
+          else vh_count("longlist.units", 1);
+      }
+      free(buf);
+    }
+    if (N > 127) vh_count("longlist.more_than_127_items", 1);
+    if (N > 255) vh_count("longlist.more_than_255_items", 1);
+    vh_distinct(vh_hash(b.p, b.len, 66));
+    vh_buf_free(&b);
+}
+
 int main(int argc, char ** argv) {
     static const vh_phase_t phases[] = {
+        { "longlists", p6_count, p6_run },
         { "enum-class", p0_count, p0_run },
         { "enum-union", p1_count, p1_run },
         { "bytesweep", p2_count, p2_run },
@@ -575,5 +612,6 @@ int main(int argc, char ** argv) {
     vh_require("unit.term_nl"); vh_require("unit.term_semicolon"); vh_require("unit.term_end");
     vh_require("mode.len_cut.text_continues_after_cut"); vh_require("input.with_8bit_byte"); vh_require("input.with_nul_byte"); vh_require("input.longer_than_255");
     vh_require("string.incomplete"); vh_require("alldata.dangling_comma");
-    return vh_main(argc, argv, "C13", phases, 6);
+    vh_require("longlist.units");
+    return vh_main(argc, argv, "C13", phases, 7);
 }
